@@ -1,0 +1,14 @@
+//go:build verif
+
+package column
+
+// VerifYield, when set, is called at scheduling points of the commit, snapshot
+// and key-insert protocols. No lock is held at any of those points. It is only
+// compiled in with the "verif" build tag and is nil unless a harness installs it.
+var VerifYield func(point string, txn *Txn, chunk uint32)
+
+func verifYield(point string, txn *Txn, chunk uint32) {
+	if h := VerifYield; h != nil {
+		h(point, txn, chunk)
+	}
+}
